@@ -71,6 +71,18 @@ CUTOFF_MODELS_QUICK = ["sphere", "core_shell_sphere", "cylinder", "ellipsoid", "
 CUTOFFS = [0.0, 1e-5, 1e-2, "gap"]      # "gap": inside the widest gap between the sorted mesh weights near the median
 PD_ONE = {"n": 40, "width": 0.2, "nsigma": 4.0}
 PD_TWO = {"n": 10, "width": 0.2, "nsigma": 3.0}
+# the floating-literal alphabet, generated from the C grammar (C11 6.4.4.2) instead of a hand list
+LIT_DIGITS = ["", "0", "05", "5", "50", "123"]         # each digit sequence: empty / zero / leading zero / plain ...
+LIT_EXP_CHARS = ["e", "E"]
+LIT_EXP_SIGNS = ["", "+", "-"]
+LIT_EXP_DIGITS = ["0", "3", "03", "10"]
+LIT_SUFFIXES = ["", "f", "F", "l", "L"]                 # suffixed forms already have a precision: must be left alone
+LIT_PRE = ["", " ", ",", "(", ")", "*", "\n", ";", "-", "+", "=", "x ", "1.0 ", "double ", "x=", "a["]
+LIT_POST = ["", " ", ",", ")", "(", "*", "\n", ";", "-", "+", "]", " x", " 1.0", "/2"]
+LIT_PRE_Q = ["", " ", "(", "-", "=", ","]
+LIT_POST_Q = ["", ")", ";", "+", ","]
+LIT_PRE_SUFFIXED_Q = ["", "("]
+LIT_POST_SUFFIXED_Q = ["", ")"]
 COMPOSITES = ["sphere@hardsphere", "cylinder@squarewell", "sphere+cylinder", "sphere*cylinder",
               "sphere@hardsphere+cylinder", "sphere+cylinder*lamellar", "sphere+sphere+sphere"]
 # exact zeros: |q| = 0 and an ordinary q; 2-D points on the axes and at the origin.  (Tiny non-zero q is left out on
@@ -190,6 +202,8 @@ def cases(ctx):
         out.append({"kind": "cutoff", "model": m, "pd": "one"})
         if npd >= 2:
             out.append({"kind": "cutoff", "model": m, "pd": "two"})
+    for mant in literal_mantissas():
+        out.append({"kind": "literal", "mant": mant})
     for m in build.compiled_models():
         out.append({"kind": "zeros", "model": m})
     for expr in COMPOSITES:
@@ -357,7 +371,7 @@ class Block(object):
         self.n = self.nt = 0
         self.outcomes = set()
 
-    def run(self, src, label=None):
+    def run(self, src, label=None, extra=None):
         from sasmodels import generate
         r = self.r
         try:
@@ -380,6 +394,8 @@ class Block(object):
                 if _CONTINUED_LINE_COMMENT.search(src):
                     # C splices lines before it removes comments: the next physical line belongs to the // comment
                     fk["noncode"] = "continued-line-comment"
+                if extra:
+                    fk.update(extra)
                 key = tuple(sorted(fk.items()))
                 r.extra["violating-strings:" + v.clause] += 1
                 if key not in self.first:
@@ -427,6 +443,8 @@ def run_case(case, ctx):
         return _run_cutoff(case, ctx)
     if kind == "zeros":
         return _run_zeros(case, ctx)
+    if kind == "literal":
+        return _run_literal(case, ctx)
     if kind == "composite":
         return _run_composite(case, ctx)
     raise HarnessError("unknown case kind %r" % kind)
@@ -653,6 +671,65 @@ def _run_e2e(case, ctx):
                 r.fail("%s: value %s deviates from double %s by %.3g of max|I| (bound %g)" % (call, val, ref, err, tol), fk)
             else:
                 r.ok(nt=want.itemsize != 8, outcome="e2e:%s" % want, branches=["dtype-e2e"], trans=2)
+    return r
+
+
+def literal_mantissas():
+    """[int digits, '.' or '', fraction digits]: every digit-sequence.digit-sequence with at least one side present, and
+    every digit-sequence without a point (which needs an exponent to be a floating constant)"""
+    out = []
+    for i in LIT_DIGITS:
+        for f in LIT_DIGITS:
+            if i or f:
+                out.append([i, ".", f])
+    for i in LIT_DIGITS:
+        if i:
+            out.append([i, "", ""])
+    return out
+
+
+def _digit_class(d):
+    return "none" if d == "" else "zero" if d == "0" else "lead0" if d[0] == "0" else "plain"
+
+
+def _run_literal(case, ctx):
+    """
+    one mantissa x every exponent (absent / e,E x sign absent,+,- x digits 0, 3, 03, 10) x every suffix (absent, f, F, l, L)
+    x every context (text before x text after; combinations in which the literal merges with its neighbour are skipped).
+    The expectation comes from the lexer rule alone: an unsuffixed pp-number with a '.' or a decimal exponent is a
+    double literal and gains exactly f / L; a suffixed one is left alone.
+    """
+    r = R()
+    blk = Block(r)
+    i, pt, f = case["mant"]
+    exps = [""] if pt else []
+    exps += [c + sg + d for c in LIT_EXP_CHARS for sg in LIT_EXP_SIGNS for d in LIT_EXP_DIGITS]
+    for ex in exps:
+        for suf in LIT_SUFFIXES:
+            lit = i + pt + f + ex + suf
+            if ctx.quick:
+                pres, posts = (LIT_PRE_Q, LIT_POST_Q) if not suf else (LIT_PRE_SUFFIXED_Q, LIT_POST_SUFFIXED_Q)
+            else:
+                pres, posts = LIT_PRE, LIT_POST
+            extra = {"int": _digit_class(i), "point": bool(pt), "frac": _digit_class(f),
+                     "exp": "none" if not ex else "unsigned" if ex[1] not in "+-" else "signed", "suffix": suf or "none"}
+            for pre in pres:
+                for post in posts:
+                    src = pre + lit + post
+                    try:
+                        want = [t.text for t in clex.lex(pre)] + [lit] + [t.text for t in clex.lex(post)]
+                        have = [t.text for t in clex.lex(src)]
+                    except clex.LexError:
+                        r.extra["skipped-not-lexable"] += 1
+                        continue
+                    if have != want:
+                        r.extra["skipped-fragments-merge"] += 1
+                        continue
+                    r.branches["grammar-literal" + ("-suffixed" if suf else "")] += 1
+                    blk.run(src, extra=extra)
+    blk.close("literal")
+    if not r.samples and blk.n:
+        r.sample({"mantissa": i + pt + f, "strings": blk.n})
     return r
 
 
@@ -972,6 +1049,8 @@ def finish(ctx, report):
     report.require("snippets", len(SNIPPETS), "property-text snippets")
     report.require("directive-lines", 100, "directive lines")
     report.require("noncode-spans-lines", 500, "strings with a comment / string literal that spans lines")
+    report.require("grammar-literal", 20000, "unsuffixed floating literals generated from the C grammar, in context")
+    report.require("grammar-literal-suffixed", 10000, "suffixed floating literals generated from the C grammar, in context")
     report.require("zeros-float32", 80, "float32 kernels at exact zeros of q / orientation")
     report.require("zeros-longdouble", 120, "long double kernels at exact zeros of q / orientation")
     report.require("dtype-composite", 100, "dtype spellings on composite models")
